@@ -386,13 +386,14 @@ func init() {
 				}
 			}
 			// file insertion orders
-			perms := permutations(len(files))
+			var perms [][]int
 			if len(files) > 4 {
-				var sample [][]int
+				// (never all n! of them: a bundle can have a dozen files)
 				for k := 0; k < 12; k++ {
-					sample = append(sample, ctx.Rng.Perm(len(files)))
+					perms = append(perms, ctx.Rng.Perm(len(files)))
 				}
-				perms = sample
+			} else {
+				perms = permutations(len(files))
 			}
 			twoErrors := false
 			for _, f := range files {
